@@ -803,7 +803,23 @@ fn gen_hostile_footer(rng: &mut Rng, corpus_footers: &[String]) -> Vec<u8> {
             _ => format!("/{}:{}:{}", pick_num(rng), pick_num(rng), pick_num(rng)),
         }
     };
-    let mut s: Vec<u8> = match rng.below(10) {
+    let mut s: Vec<u8> = match rng.below(13) {
+        10..=12 => {
+            // every field inside its legal range, but the rule as a whole is degenerate: both
+            // switch-overs on the same date or the same instant, no offset difference, huge offset
+            // difference, switch-overs at the very start or end of the year (crossing into the
+            // neighbouring year with signed times), reversed or adjacent dates
+            let dates = ["M3.5.0", "M3.4.0", "M10.5.0", "M1.1.0", "M1.1.1", "M12.5.6", "M12.5.0", "M2.4.0", "M2.5.3", "M2.4.2", "J1", "J365", "J59", "J60", "J61", "0", "365", "364", "58", "59", "60", "1"];
+            let times = ["", "/0", "/1", "/2", "/3", "/24", "/-1", "/-24", "/25", "/167", "/-167", "/26:59:59", "/1:00:01", "/0:59:59"];
+            let offs = ["-1", "0", "1", "-14", "12", "24", "-24", "-0:00:01", "11:59:59"];
+            let dsts = ["", "-2", "-1", "0", "1", "-1:00:01", "24", "-24", "-15"];
+            let a = *rng.pick(&dates);
+            let b = match rng.below(3) {
+                0 => a,
+                _ => *rng.pick(&dates),
+            };
+            format!("STD{}DST{},{}{},{}{}", rng.pick(&offs), rng.pick(&dsts), a, rng.pick(&times), b, rng.pick(&times)).into_bytes()
+        }
         0..=5 => {
             // grammar-shaped with hostile numbers
             let name = *rng.pick(&["CET", "<+0330>", "<-03>", "A", "", "<", "<>", "LONGNAME", "X1"]);
